@@ -193,7 +193,7 @@ func drive(c *runner.Ctx, j *job) {
 			}
 			seq, op := theProbe.lastStatus()
 			fr, class := crashSite(se)
-			if f2 := frameOf(dyingGoroutine(se), false, true); f2 != "unknown" {
+			if f2 := loopFrame(dyingGoroutine(se)); f2 != "unknown" {
 				fr = f2
 			}
 			t = &trip{Class: "fatal:" + class, Op: op, Seq: seq, Frame: fr, Stack: head(se, 4000), Item: -1}
@@ -216,7 +216,7 @@ func drive(c *runner.Ctx, j *job) {
 			c.Violation("es/"+t.Frame+"/alloc", fmt.Sprintf("%s had allocated %d bytes for %d input bytes when it was stopped (bound %d = 8 MiB + 1024*len), inside %s (case %s)",
 				t.Op, t.Alloc, t.Len, t.Bound, t.Frame, it.Desc), w)
 		case t.Class == "cpu-presumed":
-			c.Count("presumed_repeats_of_confirmed_hang_keys(aborted at 100 ms CPU, not reported)", 1)
+			c.Count("presumed_repeats_of_confirmed_hang_keys(aborted at 30 ms CPU, not reported)", 1)
 			c.Seen("presumed_repeat_of", "es/"+t.Frame+"/cpu")
 		case t.Class == "cpu":
 			// first exceedance: reproduce in a fresh probe before calling it a violation
